@@ -30,8 +30,11 @@ from typing import Any, Callable, Dict, Iterable, List, Optional
 
 VERIF = os.path.dirname(os.path.dirname(os.path.abspath(__file__)))
 REPO = os.environ.get("VERIF_REPO", "/repo")
-EVIDENCE_DIR = os.path.join(VERIF, "evidence")
-REPLAY_DIR = os.path.join(VERIF, "replays")
+# evidence describes /repo; runs against another tree (seeded changes) keep theirs apart
+EVIDENCE_DIR = os.path.join(VERIF, "evidence" if os.path.realpath(REPO) == "/repo"
+                            else "evidence.other")
+REPLAY_DIR = os.path.join(VERIF, "replays" if os.path.realpath(REPO) == "/repo"
+                          else "replays.other")
 KNOWN_FINDINGS = os.path.join(VERIF, "known_findings.json")
 EVIDENCE_SCHEMA = "/root/.vp/EVIDENCE.schema.json"
 
@@ -328,6 +331,17 @@ def write_replay(prop: str, violation: dict) -> str:
             indent=1,
         )
         stream.write("\n")
+    test = os.path.join(directory, "test_replay_%s.py" % name)
+    with open(test, "w") as stream:
+        stream.write(
+            '"""Replays one recorded counterexample of %s without the explorer: fails while the '
+            'property is broken"""\n'
+            "import subprocess\n\n\n"
+            "def test_replay():\n"
+            "    done = subprocess.run([%r, %r, '--replay', %r], capture_output=True, text=True)\n"
+            "    assert done.returncode == 0, done.stdout[-2000:]\n\n\n"
+            "if __name__ == '__main__':\n"
+            "    test_replay()\n" % (prop, os.path.join(VERIF, "check"), prop, path))
     return path
 
 
